@@ -278,6 +278,26 @@ func (e *balEngine) run() {
 		}
 	}
 	for _, op := range ops {
+		if op.Kind == bLock && Prop() == "C09" && op.To%3 == 0 {
+			// order of two parties: somebody's zero-amount transfer reaches the
+			// address of the lock account right before the Alphabet's lock does
+			// (the address is derived from a public withdraw request; a zero
+			// transfer destroys nothing, so C01's "fresh target" restriction is
+			// not what this is about). The lock must behave as on a fresh one.
+			u := e.users[op.To%4]
+			la := hash.Hash160([]byte(fmt.Sprintf("lock/%d", e.nLock+1))).BytesBE()
+			d := &balTx{op: balOp{Kind: bTransfer}, kind: bTransfer}
+			d.from, d.to, d.amount = u.addr, la, big.NewInt(0)
+			d.signers = []Signer{Single(u.name, u.key)}
+			d.desc = fmt.Sprintf("transfer(%s→future lock#%d, 0)", u.name, e.nLock+1)
+			e.finishTx(d, "sched.reorder", CallScript(e.bal, "transfer", u.addr, la, big.NewInt(0), nil))
+			e.r.Fired("sched.reorder")
+			e.r.Count("probe.lock_target_touched_by_zero_transfer_first")
+			pending = append(pending, d)
+			if op.To%2 == 0 {
+				flush(0, 1)
+			}
+		}
 		bt := e.build(op)
 		if bt == nil {
 			continue
@@ -478,7 +498,13 @@ func (e *balEngine) build(op balOp) *balTx {
 		bt.desc = fmt.Sprintf("burn(%s, %s)", from.name, amt)
 		e.finishTx(bt, orStr(sf, f), CallScript(e.bal, "burn", from.addr, amt, []byte("b")))
 	case bLock:
-		from := e.account(op.From, false, false)
+		// C09 speaks of locks of ordinary owners. Under C01/C02 the funds of a
+		// lock may also come from an earlier lock account (a well-formed address
+		// like any other): one tick then moves one account twice
+		from := e.account(op.From, false, Prop() != "C09")
+		if e.m.locks[string(from.addr)] != nil {
+			e.r.Count("probe.lock_funded_from_a_lock_account")
+		}
 		e.nLock++
 		la := hash.Hash160([]byte(fmt.Sprintf("lock/%d", e.nLock))).BytesBE()
 		amt, f := e.amount(op.Amt, e.m.get(string(from.addr)), new(big.Int))
